@@ -113,13 +113,18 @@ def ser_problems(r):
                 continue
             if srcs[name] != ch:
                 out.append(("C07:ser:parameter_sources:wrong-channel", "%s: %r reported %s, came from %s" % (kind, name, srcs[name], ch)))
-            want = val
+            want, jsonable = val, True
             try:
                 json.dumps(want)
             except Exception:
-                want = None
-            if want is not None and not _same(params[name], want):
+                want, jsonable = None, False
+            if jsonable and not _same(params[name], want):
                 out.append(("C07:ser:parameters:wrong-value", "%s: %r reported %r, passed %r" % (kind, name, params[name], val)))
+            if not jsonable and not isinstance(params[name], str) and not _scalar_equal(params[name], val):
+                # a value JSON cannot carry may be reported by its repr text, never as a different value (a one-element array
+                # is not the number it holds)
+                out.append(("C07:ser:parameters:wrong-value", "%s: %r reported %r (a %s), passed %r (a %s)"
+                            % (kind, name, params[name], type(params[name]).__name__, val, type(val).__name__)))
         resolved = {name for name, _, _ in e["params"]}
         # (only for a node that ran: one rejected at its input gate reports what it would have been given)
         for name in sorted(set(params) | set(srcs)) if e["exc"] is None else []:
@@ -253,6 +258,15 @@ def tz_problems(rep):
     return bad, mono
 
 
+def _scalar_equal(reported, val):
+    """reported (a JSON value) denotes the same scalar as val (0-dimensional: a number type JSON does not know)"""
+    try:
+        import numpy as np
+        return np.ndim(val) == 0 and not hasattr(val, "__len__") and isinstance(reported, (bool, int, float)) and bool(reported == val)
+    except Exception:
+        return False
+
+
 def run(ck):
     facts = tl.setup_check(ck)
     thorough = ck.tier == "thorough"
@@ -274,7 +288,7 @@ def run(ck):
     cases += tl.failure_cases(rng, 12 if thorough else 4, stats, maxlen=5)
     # unusual but legal context values (a lock, a generator, a 0-d array, ...): what the SERs say about the nodes around them
     # must stay true (direct oracle; the harness' own log snapshots by reference and never copies values)
-    cases += tl.unusual_value_cases(10 if thorough else 6)
+    cases += tl.unusual_value_cases(13 if thorough else 8)
     combos = [(d, m) for d in tl.DETAILS for m in tl.MODES]
     texts, kept, reported = [], [], {}
     counts = collections.Counter()
